@@ -552,20 +552,51 @@ type h1Result struct {
 	upGot   *hmsg
 	cliGot  *hmsg
 	problem string
+	onConn  int // how many round trips the downstream connection had already served
+}
+
+// h1Client keeps its connection across round trips (keep-alive): several requests of a history go through the SAME
+// downstream stream connection of MOSN.
+type h1Client struct {
+	addr  string
+	c     net.Conn
+	br    *bufio.Reader
+	reuse int // round trips made on the current connection
+}
+
+func (hc *h1Client) drop() {
+	if hc.c != nil {
+		hc.c.Close()
+		hc.c = nil
+	}
 }
 
 func h1RoundTrip(addr string, up *h1Upstream, r *Rng, id string, rq h1ReqSpec, rs h1RespSpec) h1Result {
-	var res h1Result
+	hc := &h1Client{addr: addr}
+	defer hc.drop()
+	return hc.roundTrip(up, r, id, rq, rs)
+}
+
+func (hc *h1Client) roundTrip(up *h1Upstream, r *Rng, id string, rq h1ReqSpec, rs h1RespSpec) (res h1Result) {
 	up.script(id, rawResp{wire: rs.wire, closeAfter: rs.framing == "close"})
 	defer up.taken(id)
-	c, err := net.DialTimeout("tcp", addr, 2*time.Second)
-	if err != nil {
-		res.problem = err.Error()
-		return res
+	defer func() {
+		if res.problem != "" {
+			hc.drop()
+		}
+	}()
+	if hc.c == nil {
+		c, err := net.DialTimeout("tcp", hc.addr, 2*time.Second)
+		if err != nil {
+			res.problem = err.Error()
+			return res
+		}
+		hc.c, hc.br, hc.reuse = c, bufio.NewReader(c), 0
 	}
-	defer c.Close()
+	c, br := hc.c, hc.br
+	res.onConn = hc.reuse
+	hc.reuse++
 	c.SetDeadline(time.Now().Add(4 * time.Second))
-	br := bufio.NewReader(c)
 	if _, err := c.Write([]byte(rq.wireHead)); err != nil {
 		res.problem = err.Error()
 		return res
@@ -596,6 +627,13 @@ func h1RoundTrip(addr string, up *h1Upstream, r *Rng, id string, rq h1ReqSpec, r
 		st, _ = strconv.Atoi(p[1])
 	}
 	res.cliGot = &hmsg{Status: st, Fields: withoutFraming(parseFields(lines)), Body: body, BodyN: len(body), Decl: rs.msg.Decl, CloseD: rs.msg.CloseD}
+	// the connection is over if the response says so (MOSN closes after a request with "Connection: close"; it also
+	// passes the close flag of a close-delimited upstream response on)
+	for _, v := range namedValues(res.cliGot.Fields, "connection") {
+		if strings.EqualFold(v, "close") {
+			hc.drop()
+		}
+	}
 	got := up.taken(id)
 	if len(got) != 1 {
 		res.problem = fmt.Sprintf("the upstream saw %d requests", len(got))
@@ -732,19 +770,69 @@ func http1Part(run *Run, e *env) error {
 	qsh := run.NewShard(h1ShardHeader, "req_case", "req_mismatches src_hsw")
 	psh := run.NewShard(h1ShardHeader, "resp_case", "resp_mismatches src_hsw")
 	n := run.N(220, 6000)
+	// generate everything first; then run it as keep-alive HISTORIES (2-6 consecutive messages share one downstream
+	// connection = one server stream connection, its buffers and its request/response objects; the upstream pool is shared by
+	// all) on three clients at the same time; then evaluate message by message: the model and the finder judge every message
+	// on its own, so what arrives for message k of a history must be what arrives when it is sent alone
+	type h1Case struct {
+		id   string
+		rq   h1ReqSpec
+		rs   h1RespSpec
+		res  h1Result
+		hist int
+	}
+	cases := make([]*h1Case, n)
+	var hists [][]*h1Case
+	for i := 0; i < n; {
+		k := 2 + r.Intn(5)
+		if r.Pct(15) {
+			k = 1
+		}
+		var h []*h1Case
+		for j := 0; j < k && i < n; j, i = j+1, i+1 {
+			big := r.Pct(15)
+			id := fmt.Sprintf("c%d", i)
+			rq := genH1Request(r, big, id)
+			rs := genH1Response(r, rq.msg.Method == "HEAD", big)
+			cases[i] = &h1Case{id: id, rq: rq, rs: rs, hist: len(hists)}
+			h = append(h, cases[i])
+		}
+		hists = append(hists, h)
+	}
+	var wg sync.WaitGroup
+	work := make(chan []*h1Case, len(hists))
+	for _, h := range hists {
+		work <- h
+	}
+	close(work)
+	for w := 0; w < 3; w++ {
+		wr := NewRng(r.U64())
+		wg.Add(1)
+		go func(wr *Rng) {
+			defer wg.Done()
+			for h := range work {
+				hc := &h1Client{addr: he.addr}
+				for _, k := range h {
+					k.res = hc.roundTrip(up, wr, k.id, k.rq, k.rs)
+				}
+				hc.drop()
+			}
+		}(wr)
+	}
+	wg.Wait()
 	for i := 0; i < n; i++ {
-		big := r.Pct(15)
-		id := fmt.Sprintf("c%d", i)
-		rq := genH1Request(r, big, id)
-		rs := genH1Response(r, rq.msg.Method == "HEAD", big)
-		res := h1RoundTrip(he.addr, up, r, id, rq, rs)
+		rq, rs, res := cases[i].rq, cases[i].rs, cases[i].res
+		if res.onConn > 0 {
+			run.Sum.Distribution["http1:on-reused-downstream-connection"]++
+		}
 		kind := fmt.Sprintf("%s/%s->%d/%s", rq.msg.Method, rq.framing, rs.msg.Status, rs.framing)
 		if rq.multipart {
 			kind = "multipart:" + kind
 		}
 		run.Count(fmt.Sprintf("h1|%d|%s|%v|%v", i, kind, rq.msg.Fields, rs.msg.Fields), len(rq.msg.Fields)+len(rs.msg.Fields) >= 4, "http1:"+kind)
 		rep := map[string]interface{}{"part": "http1-message", "request": rq.msg, "request_head_on_the_wire": rq.wireHead, "response": rs.msg,
-			"response_framing": rs.framing, "upstream_received": res.upGot, "client_received": res.cliGot}
+			"response_framing": rs.framing, "upstream_received": res.upGot, "client_received": res.cliGot,
+			"history": cases[i].hist, "earlier_round_trips_on_this_connection": res.onConn}
 		if i%40 == 0 {
 			run.Sample(rep)
 		}
